@@ -269,4 +269,40 @@ def c08_c(ctx: Ctx):
     return out
 
 
-RULES = [c08_a, c08_b, c08_c]
+@rule("C08-d")
+def c08_d(ctx: Ctx):
+    """The snapshot of the file content is a separate object from the in-memory cache; chunked reading covers every id."""
+    R = "C08-d"
+    out = []
+    rc = ctx.fn("signac.project:Project._read_cache")
+    rets = [r for r in body_nodes(rc) if isinstance(r, ast.Return) and r.value is not None]
+    rnames = {canon(r.value) for r in rets}
+    alias = [n for n in body_nodes(rc) if isinstance(n, ast.Assign) and any(_is_cache(t) for t in n.targets) and canon(n.value) in rnames]
+    alias += [n for n in body_nodes(rc) if isinstance(n, ast.Assign) and _is_cache(n.value) and any(canon(t) in rnames for t in n.targets)]
+    alias += [r for r in rets if _is_cache(r.value)]
+    if alias:
+        out.append(ctx.viol(R, rc, alias[0], f"_read_cache makes the returned file content and self._sp_cache the same object ({stmt_key(alias[0], 40)}): update_cache then compares the reconciled "
+                            "cache with itself, never rewrites a stale file and reports 'up to date'"))
+    else:
+        upd = [c for c in body_nodes(rc) if isinstance(c, ast.Call) and isinstance(c.func, ast.Attribute) and c.func.attr == "update" and _is_cache(c.func.value)]
+        if upd:
+            out.append(ctx.ok(R, rc, upd[0], "the file content is merged into the in-memory cache with update(); the returned snapshot stays a separate object"))
+        else:
+            out.append(ctx.inc(R, rc, rc.node, "_read_cache does not merge the file content with update()"))
+    sp = ctx.fn("signac.project:_split_and_print_progress")
+    ys = [n for n in body_nodes(sp) if isinstance(n, ast.Yield) and n.value is not None]
+    open_tail = [y for y in ys if isinstance(y.value, ast.Subscript) and isinstance(y.value.slice, ast.Slice) and y.value.slice.upper is None]
+    whole = [y for y in ys if isinstance(y.value, ast.Name)]
+    floor = any(isinstance(n, ast.Assign) and any(isinstance(t, ast.Name) and t.id == "len_chunk" for t in n.targets)
+                and ("int(" in canon(n.value) or "//" in canon(n.value)) for n in body_nodes(sp))
+    if open_tail and whole:
+        out.append(ctx.ok(R, sp, open_tail[0], "chunking ends with an open-ended slice (and yields the whole list when there is one chunk): no id is dropped"))
+    elif floor and not open_tail:
+        out.append(ctx.viol(R, sp, sp.node, "chunks have a fixed (floor-divided) length and there is no open-ended last slice: when the number of new ids is not divisible by the number of chunks "
+                            "the remainder is never read, so update_cache writes a cache that misses existing jobs"))
+    else:
+        out.append(ctx.inc(R, sp, sp.node, "chunking shape not recognised"))
+    return out
+
+
+RULES = [c08_a, c08_b, c08_c, c08_d]
